@@ -58,6 +58,7 @@ int main(int argc, char** argv) {
     const bool T = true /* the wide lattices run in both tiers */; const bool D = R.thorough(); (void)D;
     std::vector<unsigned> ns = T ? std::vector<unsigned>{4, 5, 6, 8, 12} : std::vector<unsigned>{4, 5, 6};
     std::vector<unsigned> Ns = T ? std::vector<unsigned>{16, 24, 30, 32, 33, 37, 48, 64, 96, 127, 128} : std::vector<unsigned>{16, 24, 33};
+    if (D) { ns.push_back(16); ns.push_back(24); Ns.push_back(255); Ns.push_back(256); Ns.push_back(384); }
     if (R.warm) { for (unsigned N : Ns) { Rig r(Cfg{4, 1, N, 0, {0}}); r.f->wakePotential(); } return 0; }
     for (unsigned n : ns) for (unsigned N : Ns) {
         if (N < 2 * n) continue;
